@@ -22,6 +22,7 @@ import (
 	"syscall"
 	"time"
 
+	"github.com/internetarchive/Zeno/internal/pkg/archiver"
 	"github.com/internetarchive/Zeno/internal/pkg/config"
 	"github.com/internetarchive/Zeno/internal/pkg/controler"
 	"github.com/internetarchive/Zeno/internal/pkg/controler/pause"
@@ -95,6 +96,10 @@ type PipeResult struct {
 	FDs           int            `json:"fds"`
 	Goroutines    int            `json:"goroutines"`
 	TempFiles     int            `json:"temp_files"`
+	Tokens        int            `json:"tokens_in_use"`
+	Buckets       int            `json:"limiter_buckets"`
+	MaxBuckets    int            `json:"limiter_max_buckets"`
+	OpenBodies    int            `json:"open_bodies"`
 	Events        int            `json:"events"`
 	PausedAtStop  bool           `json:"paused_at_stop"`
 	QuiescentAtMs int64          `json:"quiescent_at_ms"`
@@ -166,11 +171,22 @@ func runPipeChild(specPath string) {
 	port := lnA.Addr().(*net.TCPAddr).Port
 	lnB, err := net.Listen("tcp", fmt.Sprintf("127.0.0.3:%d", port))
 	must(err)
+	var extra []net.Listener
+	if sp.SiteMode == "hosts" { // many hosts (C16: limiter table churn): 127.0.1.1 .. 127.0.1.40
+		for i := 1; i <= 40; i++ {
+			if l, err := net.Listen("tcp", fmt.Sprintf("127.0.1.%d:%d", i, port)); err == nil {
+				extra = append(extra, l)
+			}
+		}
+	}
 	hostA, hostB := fmt.Sprintf("127.0.0.2:%d", port), fmt.Sprintf("127.0.0.3:%d", port)
 	site := &e2eSite{seed: sp.SiteSeed, mode: sp.SiteMode, hostA: hostA, hostB: hostB, hostX: fmt.Sprintf("127.0.0.9:%d", port), attempts: map[string]int{}}
 	srv := &http.Server{Handler: site}
 	go srv.Serve(lnA)
 	go srv.Serve(lnB)
+	for _, l := range extra {
+		go srv.Serve(l)
+	}
 	evlog.write("run", fmt.Sprint(runN), fmt.Sprint(port))
 
 	var proxyAddr string
@@ -227,6 +243,7 @@ func runPipeChild(specPath string) {
 	// ---- hook handler
 	res := &PipeResult{Port: port, Stats: map[string]int{}}
 	var finished atomic.Int64
+	var openBodies atomic.Int64 // nodes found holding a body after post-processing (must stay 0)
 	var sawInsert atomic.Bool // quiescence is only meaningful once the queue has started handing out rows
 	var stopOnce sync.Once
 	stopDone := make(chan struct{})
@@ -268,6 +285,13 @@ func runPipeChild(specPath string) {
 			}
 		}
 		evlog.write(point, fields...)
+		if it, ok := arg.(*models.Item); ok && (point == "fin.feedback" || point == "fin.finished" || point == "post.done") {
+			it.Traverse(func(n *models.Item) {
+				if n.GetURL() != nil && n.GetURL().GetBody() != nil {
+					openBodies.Add(1)
+				}
+			})
+		}
 		if point == "lq.inserted" {
 			sawInsert.Store(true)
 		}
@@ -354,6 +378,9 @@ loop:
 					if sp.Footprint {
 						time.Sleep(300 * time.Millisecond)
 						res.FDs, res.Goroutines, res.TempFiles = footprint(c.WARCTempDir)
+						res.Tokens = reactor.VerifTokensInUse()
+						res.Buckets, res.MaxBuckets = archiver.VerifLimiterTable()
+						res.OpenBodies = int(openBodies.Load())
 					}
 					res.Stats["workers_live"] = int(stats.PreprocessorRoutinesGet() + stats.ArchiverRoutinesGet() + stats.PostprocessorRoutinesGet())
 					doStop()
@@ -423,6 +450,10 @@ func (s *e2eSite) link(r *Rng, host string) string {
 	if host == s.hostB {
 		other = s.hostA
 	}
+	if s.mode == "hosts" { // many distinct hosts, so that the per-host limiter table has to evict
+		port := s.hostA[strings.LastIndex(s.hostA, ":")+1:]
+		other = fmt.Sprintf("127.0.1.%d:%s", 1+r.Intn(40), port)
+	}
 	switch r.Intn(16) {
 	case 0:
 		return fmt.Sprintf("http://nodot/r%d%s", k, ext)
@@ -475,6 +506,9 @@ func (s *e2eSite) lookup(url string) resource {
 		res.links = append(res.links, s.link(r, host))
 	}
 	pad := []int{0, 0, 0, 1500, 1990, 2048, 3000, 70000}[r.Intn(8)]
+	if s.mode == "hosts" { // some bodies beyond the 2 MiB spool threshold (temp files on disk)
+		pad = []int{0, 0, 1500, 3000, 70000, 2097152 + 5000}[r.Intn(6)]
+	}
 	if s.mode == "bodies" {
 		pad = []int{0, 1, 2040, 2047, 2048, 2049, 4096, 100000, 2097152 - 300, 2097152 + 5000, 3 << 20}[r.Intn(11)]
 	}
